@@ -28,12 +28,17 @@ const EXTRA: &[&str] = &[";", "1.5", "5.8", "5.4", "7", "-1", "4294967296", "999
     // by ASCII digits, and followed by a multi-byte white-space character (U+3000)
     "\u{b2}", "\u{663}7", "\u{2460}", "\u{bd}x", "\u{ff11}\u{3000}x",
     // numbers at and beyond the limits of a 96-bit decimal (28-29 digits, 28 decimals), exponent spellings beyond it
+    // names of at most 32 characters but more than 32 bytes (2-, 3-, 4-byte characters), and of 32 characters / 64 bytes
+    "\u{e9}\u{e9}\u{e9}\u{e9}\u{e9}\u{e9}\u{e9}\u{e9}\u{e9}\u{e9}\u{e9}\u{e9}\u{e9}\u{e9}\u{e9}\u{e9}\u{e9}",
+    "\u{540d}\u{540d}\u{540d}\u{540d}\u{540d}\u{540d}\u{540d}\u{540d}\u{540d}\u{540d}\u{540d}",
+    "\u{1f600}\u{1f600}\u{1f600}\u{1f600}\u{1f600}\u{1f600}\u{1f600}\u{1f600}\u{1f600}",
+    "\u{e9}\u{e9}\u{e9}\u{e9}\u{e9}\u{e9}\u{e9}\u{e9}\u{e9}\u{e9}\u{e9}\u{e9}\u{e9}\u{e9}\u{e9}\u{e9}\u{e9}\u{e9}\u{e9}\u{e9}\u{e9}\u{e9}\u{e9}\u{e9}\u{e9}\u{e9}\u{e9}\u{e9}\u{e9}\u{e9}\u{e9}\u{e9}",
     "7922816251426433759354395034", "79228162514264337593543950335", "-79228162514264337593543950335", "0.0000000000000000000000000001", "1e29", "1e400",
 ];
 
 /// Texts with a fault on a line longer than 200 bytes that is full of multi-byte characters (error reports quote
 /// the current line): template x filler character (2, 3, 4 bytes) x 0..=3 ASCII pad bytes (every alignment).
-const LONG_TEMPLATES: usize = 7;
+const LONG_TEMPLATES: usize = 12;
 const LONG_CHARS: [&str; 3] = ["\u{e9}", "\u{540d}", "\u{1f600}"];
 fn long_line_text(t: usize, c: usize, pad: usize) -> Option<String> {
     let ch = LONG_CHARS.get(c)?;
@@ -46,6 +51,13 @@ fn long_line_text(t: usize, c: usize, pad: usize) -> Option<String> {
         4 => format!("VERSION 5.8 ;\nPROPERTYDEFINITIONS MACRO {fill} BADTYPE ;\n"),
         5 => format!("VERSION 5.8 ;\nDIVIDERCHAR \"{fill}\" ;\n"),
         6 => format!("VERSION 5.8 ;\nMACRO m\n  PIN {fill} DIRECTION SIDEWAYS ; # {fill}\n"),
+        // comments whose very first character is multi-byte, with more multi-byte text after them (short texts:
+        // `pad` ASCII letters shift the alignment)
+        7 => format!("#{ch}\nEND LIBRARY\n"),
+        8 => format!("#{ch}{}\n{ch}", "a".repeat(pad)),
+        9 => format!("#{ch} c{}\nMACRO {ch}{ch}\nEND {ch}{ch}\nEND LIBRARY\n", "a".repeat(pad)),
+        10 => format!("VERSION 5.8 ; #{ch}{}\nDIVIDERCHAR \"{ch}\" ;\nBUSBITCHARS \"{ch}{ch}\" ;\n", "a".repeat(pad)),
+        11 => format!("#{ch}\n#{ch}{ch}\nMACRO m # {ch}\n  BADKEY {ch} ;\n"),
         _ => return None,
     })
 }
